@@ -240,10 +240,16 @@ class MExecutor:
                 self.busy -= 1
             _ev(S, 'job-end', job.id, job.item)
 
-    def shutdown(self, wait=True, **k):
+    def shutdown(self, wait=True, cancel_futures=False, **k):
         self.shutdown_calls += 1
         self.shutdown_flag = True
         _ev(self.S, 'pool-shutdown', wait)
+        if cancel_futures:
+            # concurrent.futures semantics: work items not yet started are cancelled
+            dropped = list(self.jobs)
+            self.jobs.clear()
+            for j in dropped:
+                _ev(self.S, 'job-cancelled', j.id, j.item)
         if wait:
             me = self.S.me()
             self.S.yield_('shutdown-wait', None,
